@@ -203,6 +203,16 @@ Section S.
           | None => (Err CUndefFn, st)
           | Some body => catch (fn_tag i) (s_seq (ev [fn_tag i] []) body VNil st)
           end
+      | Unless c body =>
+          match ev bl tg c st with
+          | (Normal v, st1) => if is_nil v then s_seq (ev bl tg) body VNil st1 else (Normal VNil, st1)
+          | (o, st1) => (o, st1)
+          end
+      | If c a b =>
+          match ev bl tg c st with
+          | (Normal v, st1) => if is_nil v then ev bl tg b st1 else ev bl tg a st1
+          | (o, st1) => (o, st1)
+          end
       end
     end.
 End S.
@@ -275,6 +285,8 @@ Fixpoint gd (R G : list N) (f : form) {struct f} : bool :=
   | Do _ body res => g_items gd (0%N :: R) (tags_of body ++ G) body && g_all gd (0%N :: R) G res
   | Lam body => g_all gd R G body
   | CallU _ => true
+  | Unless c body => gd R G c && g_all gd R G body
+  | If c a b => gd R G c && gd R G a && gd R G b
   end.
 
 (* a function body sees its own block only *)
@@ -295,7 +307,8 @@ Fixpoint wf (f : form) {struct f} : bool :=
   | Const _ | Tr _ | Signal _ | Incf _ | Lt _ _ | Go _ | CallU _ => true
   | Setv x _ => Nat.ltb x NVARS
   | CallList fs | Progn fs | Block _ fs | IgnoreErrors fs | WithMutex _ fs | WithFile _ fs | Lam fs => all fs
-  | When c fs | Recover c fs => wf c && all fs
+  | When c fs | Recover c fs | Unless c fs => wf c && all fs
+  | If c a b => wf c && wf a && wf b
   | Cond cs =>
       (fix gc (cs : list (form * list form)) : bool :=
          match cs with [] => true | (c, b) :: r => wf c && all b && gc r end) cs
